@@ -124,6 +124,29 @@ PAIRS = [("Base", "BaseLoader", "CBaseLoader"), ("Safe", "SafeLoader", "CSafeLoa
 
 NAMED_CLASSES = ("ComposerError", "ConstructorError")
 
+_custom = {}
+
+
+def custom_pair(yaml):
+    """A pair of application loader classes customised in the same way on both back-ends: path resolvers (their stacks are
+    walked on every node and every alias), an implicit resolver and constructors for the tags these produce."""
+    if not _custom and have_c():
+        from yaml.constructor import SafeConstructor
+        for name, base in (("py", yaml.SafeLoader), ("c", yaml.CSafeLoader)):
+            cls = type("C06App" + name, (base,), {})
+            cls.add_path_resolver("!c06-item", [None], str)
+            cls.add_path_resolver("!c06-deep", [None, None], dict)
+            cls.add_path_resolver("!c06-second", [(list, 1)])
+            cls.add_path_resolver("!c06-root", [], list)
+            cls.add_implicit_resolver("!c06-word", re.compile(r"^w[0-9]+$"), ["w"])
+            cls.add_constructor("!c06-item", lambda l, n: "item:" + l.construct_scalar(n))
+            cls.add_constructor("!c06-word", lambda l, n: "word:" + l.construct_scalar(n))
+            cls.add_constructor("!c06-deep", SafeConstructor.construct_yaml_map)
+            cls.add_constructor("!c06-root", SafeConstructor.construct_yaml_seq)
+            cls.add_multi_constructor("!c06-second", lambda l, suffix, n: ("second", n.id))
+            _custom[name] = cls
+    return _custom.get("py"), _custom.get("c")
+
 
 import re
 BANG_RE = re.compile(r"(^|[\s\[{,])!(<(%21|!)>)?([\s,\]}]|$)")
@@ -199,34 +222,37 @@ def _compare(yaml, text, expected, levels, inp):
                 "py=%s c=%s" % (a[0] if a[0] == "ok" else exc_msg(a[1]), b[0] if b[0] == "ok" else exc_msg(b[1]))))
         elif expected is not None and a[0] != "ok":
             failures.append(Failure("valid-document-rejected-by-both:%s" % type(a[1]).__name__, exc_msg(a[1])))
-    if "compose" in levels:
+    app_py, app_c = custom_pair(yaml)
+    for cname, LP, LC in ((("compose", yaml.Loader, yaml.CLoader), ("compose:customised", app_py, app_c)) if "compose" in levels else ()):
         evals += 2
-        a = outcome(lambda: list(yaml.compose_all(inp(), Loader=yaml.Loader)))
-        b = outcome(lambda: list(yaml.compose_all(inp(), Loader=yaml.CLoader)))
-        summary["compose"] = (a[0], b[0])
+        a = outcome(lambda: list(yaml.compose_all(inp(), Loader=LP)))
+        b = outcome(lambda: list(yaml.compose_all(inp(), Loader=LC)))
+        summary[cname] = (a[0], b[0])
         if a[0] == "ok" and b[0] == "ok":
             if len(a[1]) != len(b[1]):
-                failures.append(Failure("nodes-differ:count", "%d vs %d documents" % (len(a[1]), len(b[1]))))
+                failures.append(Failure("nodes-differ%s:count" % cname[7:], "%d vs %d documents" % (len(a[1]), len(b[1]))))
             else:
                 for i, (x, y) in enumerate(zip(a[1], b[1])):
                     if (x is None) != (y is None):
-                        failures.append(Failure("nodes-differ:none", "document %d" % i))
+                        failures.append(Failure("nodes-differ%s:none" % cname[7:], "document %d" % i))
                         break
                     d = node_diff(x, y) if x is not None else None
                     if d:
-                        failures.append(Failure("nodes-differ:" + d.split(": ")[1].split(" ")[0], "document %d %s" % (i, d)))
+                        failures.append(Failure("nodes-differ%s:" % cname[7:] + d.split(": ")[1].split(" ")[0], "document %d %s" % (i, d)))
                         break
         elif a[0] != b[0] or type(a[1]) is not type(b[1]):
             ca = "ok" if a[0] == "ok" else type(a[1]).__name__
             cb = "ok" if b[0] == "ok" else type(b[1]).__name__
             if "ComposerError" in (ca, cb) or "ok" in (ca, cb):
-                failures.append(Failure("compose:outcome-differs:py=%s:c=%s" % (ca, cb), "py=%s c=%s" % (
+                failures.append(Failure("%s:outcome-differs:py=%s:c=%s" % (cname, ca, cb), "py=%s c=%s" % (
                     ca if a[0] == "ok" else exc_msg(a[1]), cb if b[0] == "ok" else exc_msg(b[1]))))
     if "load" in levels:
-        for name, pl, cl in PAIRS:
+        for name, pl, cl in PAIRS + [("customised", app_py, app_c)]:
             evals += 2
-            a = outcome(lambda: list(yaml.load_all(inp(), Loader=getattr(yaml, pl))))
-            b = outcome(lambda: list(yaml.load_all(inp(), Loader=getattr(yaml, cl))))
+            pl = getattr(yaml, pl) if isinstance(pl, str) else pl
+            cl = getattr(yaml, cl) if isinstance(cl, str) else cl
+            a = outcome(lambda: list(yaml.load_all(inp(), Loader=pl)))
+            b = outcome(lambda: list(yaml.load_all(inp(), Loader=cl)))
             summary["load:" + name] = (a[0], b[0])
             if a[0] == "ok" and b[0] == "ok":
                 d = bisimilar(a[1], b[1], key_order=True)
